@@ -96,10 +96,12 @@ def run(ctx):
     return all(all(g.reaches(un.id, pl.loop.id) and not g.reaches(pl.loop.id, un.id) for un in ups) for pl in pls)
   # positional names are also popped from the bindings before the update, which is equivalent
   pos_b = [pl for pl in w.removed_before(w.B, ups[0].id) if pl.names == w.posnames] if ups else []
+  kw_b = [pl for pl in w.removed_before(w.B, ups[0].id) if pl.names in (w.K, w.K + '.keys()', 'list(%s)' % w.K) and pl.excluded in (None, w.req_kw)] if ups else []
   ctx.check((pos and after_updates(pos)) or (pos_b and pos), 'C07.record', con,
             'parameters the caller supplied positionally (unless REQUIRED) are removed from the record before it is merged',
             'parameters the caller supplied positionally are recorded as if Gin had supplied them', w.loc(mn), instance='minus-positional')
-  ctx.check(bool(kw) and after_updates(kw), 'C07.record', con,
+  # removing a name from the bindings *and* from the copied defaults before they are merged is the same removal
+  ctx.check(bool(kw) and (after_updates(kw) or bool(kw_b)), 'C07.record', con,
             'parameters the caller supplied by keyword (unless REQUIRED) are removed from the record before it is merged',
             'parameters the caller supplied by keyword are recorded as if Gin had supplied them (or are removed before the bindings are merged in)',
             w.loc(mn), instance='minus-keyword')
